@@ -220,6 +220,8 @@ def canon_model(delta: list, ended_all: bool) -> tuple[list, bool]:
         if d[0] == 0:
             continue        # the call itself: the harness issued it
         if d[0] == 2 and d[1] == 5:
+            if ended_all:
+                continue    # the second pubsub.close() at the end of close(): the harness's subscribers ended at the first
             ended_all = True
             out.append(d)
             continue
